@@ -170,6 +170,44 @@ def sig_cases(tier):
             yield (f"sigproto:{prefix}{typ}{'*' * stars}/{len(pl)}", ptxt + "\nint\tmain(void)\n{\n\treturn (0);\n}\n")
 
 
+def fptr_cases(tier):
+    """Function-pointer parameters (conforming: named, at most 4 parameters counted at the top level), function-pointer
+    locals and array dimensions holding a constant expression."""
+    fps = ["int (*cmp)(int, int)", "void (*f)(void *)", "char *(*conv)(const char *, int, int)", "void (*del)(void *, size_t)",
+           "int (*get)(void)", "t_list *(*step)(t_list *, int, char, long)"]
+    plain = ["int a", "char *bb", "t_list *lst", "size_t len"]
+    for k, fp in enumerate(fps):
+        for nplain in (0, 1, 2, 3):
+            for pos in ("last", "first", "mid"):
+                if pos == "mid" and nplain < 2 or pos == "first" and nplain == 0:
+                    continue
+                ps = plain[:nplain]
+                pl = ps + [fp] if pos == "last" else [fp] + ps if pos == "first" else ps[:1] + [fp] + ps[1:]
+                for ret, retv in (("int", "\treturn (0);\n"), ("void", "\treturn ;\n"), ("static char", "\treturn (0);\n")):
+                    star = "*" if ret.endswith("char") else ""
+                    d = f"{ret}\t{star}ft_subject({', '.join(pl)})"
+                    if norm.line_width(d) <= 80:
+                        yield (f"fptr:def:{k}/{len(pl)}:{pos}", d + "\n{\n" + retv + "}\n")
+                    w = len(ret)
+                    tabs = "\t" * ((norm.next_stop(w + 1) - 1 - w + 3) // 4)
+                    pr = f"{ret}{tabs}{star}ft_subject({', '.join(pl)});"
+                    if norm.line_width(pr) <= 80:
+                        yield (f"fptr:proto:{k}/{len(pl)}:{pos}", pr + "\n\nint\tmain(void)\n{\n\treturn (0);\n}\n")
+        if fps.index(fp) < 2:
+            two = [fp, fps[(k + 1) % len(fps)].replace("(*", "(*z")]
+            d = f"int\tft_subject({', '.join(two)})"
+            if norm.line_width(d) <= 80:
+                yield (f"fptr:def:two:{k}", d + "\n{\n\treturn (0);\n}\n")
+    for dims in ("[SIZE * 2]", "[SIZE + 1]", "[2 * SIZE]", "[ROWS][COLS * 2]", "[SIZE / 2]", "[SIZE - 1]", "[(SIZE + 1) * 2]", "[SIZE % 4][2]",
+                 "[sizeof(int) * 2]", "[SIZE << 1]", "[SIZE & 7]"):
+        for t, tabs in (("char", "\t"), ("int", "\t\t"), ("unsigned int", "\t")):
+            yield (f"arrdim:{dims}:{t}", f"int\tft_test(int n)\n{{\n\t{t}{tabs}buf{dims};\n\n\tbuf[0] = n;\n\treturn (n);\n}}\n"
+                   if t != "int" else f"int\tft_test(int n)\n{{\n\tint\t\tbuf{dims};\n\n\tbuf[0] = n;\n\treturn (n);\n}}\n")
+        yield (f"arrdim:global:{dims}", f"static char\tg_buf{dims};\n\nint\tmain(void)\n{{\n\treturn (0);\n}}\n")
+    for lp in ("int\t\t(*cmp)(int, int);", "void\t(*f)(void *);", "char\t*(*conv)(const char *, int);"):
+        yield (f"fptr:local:{lp[:8]}", "int\tft_test(int n)\n{\n\t" + lp + "\n\n\treturn (n);\n}\n")
+
+
 def decl_cases(tier):
     types = ["int", "char", "long", "short", "float", "double", "unsigned int", "unsigned char", "unsigned long long",
              "long long", "long int", "signed char", "size_t", "ssize_t", "t_list", "struct s_point", "enum e_color",
@@ -224,6 +262,7 @@ def all_cases(tier, seed):
         yield (f"{label}@{ctx}", body)
     yield from sig_cases(tier)
     yield from decl_cases(tier)
+    yield from fptr_cases(tier)
     yield from const_cases(tier)
 
 
